@@ -301,7 +301,7 @@ impl Check for C20 {
         vec!["volume readers (ScriptedSource)", "archive producer (zip writer)", "file system = real fs inside a per-run sandbox directory"]
     }
     fn required_reach() -> Vec<&'static str> {
-        vec!["empty_volume", "short_reads", "seek_error_both"]
+        vec!["empty_volume", "short_reads", "seek_error_both", "alias_member_names"]
     }
 }
 
